@@ -167,7 +167,7 @@ def synthetic_frames(draw: Any, ctl: str, n: int) -> list[str]:
 
 
 @st.composite
-def history(draw: Any, max_len: int = 120, min_len: int = 10) -> dict:
+def history(draw: Any, max_len: int = 120, min_len: int = 10, synthetic: bool = True) -> dict:
     sysd = systems()
     name = draw(st.sampled_from(sorted(sysd)))
     frames = list(sysd[name])
@@ -176,7 +176,7 @@ def history(draw: Any, max_len: int = 120, min_len: int = 10) -> dict:
     h = frames[start:start + n]
     muts = []
     for _ in range(draw(st.integers(0, 6))):
-        kind = draw(st.sampled_from(("delete", "duplicate", "swap", "move-block", "splice", "field", "field", "field", "synthetic", "synthetic")))
+        kind = draw(st.sampled_from(("delete", "duplicate", "swap", "move-block", "splice", "field", "field", "field") + (("synthetic", "synthetic") if synthetic else ())))
         if not h:
             break
         i = draw(st.integers(0, len(h) - 1))
